@@ -312,11 +312,16 @@ def plan(scn):
 
 def predicted_leaves(scn):
   seen, n = {}, 1
+  cfg = cfg_of(scn)
   for p in plan(scn):
     for role, r in p["roles"].items():
       name = r["names"][-1] if role in ("recurrent", "pointwise") and p["grouped"] else r["names"][0]
       if name not in seen:
-        seen[name] = max(1, len(r["allowed"]))
+        m = len(r["allowed"])
+        if role in ("recurrent", "pointwise") and "kernel" in p["roles"]:
+          # only a cost estimate (sharding): these decisions may offer as many values as the kernel's
+          m = max(m, len(p["roles"]["kernel"]["allowed"]))
+        seen[name] = max(1, m)
     if p["tunable"]:
       seen["network_filters" + ("" if scn["tune"] == "block" else "_" + p["name"])] = len(FILTER_RANGE)
   for v in seen.values():
@@ -370,11 +375,11 @@ def scenario_templates(rnd):
   T.append(("separable.sep", lambda r: base(
       "sep", {"SeparableConv2D": _lim3(r), "Conv2D": _lim3(r), "Dense": _lim3(r)})))
   T.append(("recurrent.rnn2", lambda r: base(
-      "rnn2", {"SimpleRNN": _lim3(r, True), "Dense": _lim3(r)}, recurrent_below_kernel=True)))
+      "rnn2", {"SimpleRNN": _lim3(r, True), "Dense": _lim3(r)}, recurrent_below_kernel=True, lean=True)))
   T.append(("recurrent.lstm", lambda r: base(
-      "lstm", {"LSTM": _lim3(r, True), "Dense": _lim3(r), "Activation": [r.choice(BITS[2:])]})))
+      "lstm", {"LSTM": _lim3(r, True), "Dense": _lim3(r), "Activation": [r.choice(BITS[2:])]}, lean=True)))
   T.append(("recurrent_pattern.rnn_dense", lambda r: base(
-      "rnn_dense", {"^r\\d": _lim3(r, True), "Dense": _lim3(r)})))
+      "rnn_dense", {"^r\\d": _lim3(r, True), "Dense": _lim3(r)}, cap=32)))
   T.append(("library_default.lstm", lambda r: base(
       "lstm", {"LSTM": [4, 8, 4, 8], "Dense": [4, 8, 8]}, cfg="library_default", mode="sampled")))
   T.append(("pattern_group_linear.group", lambda r: base(
@@ -419,7 +424,7 @@ def _finish(scn, rnd, tier):
   """Fills in config-dependent parts and redraws until the scenario lies in the domain and its
   predicted number of leaves fits the tier's cap."""
   scn = dict(scn)
-  scn["model"] = MODELS[scn.pop("model_name")]
+  scn["model"] = MODELS[scn["model_name"]]
   if scn["cfg"] == "small":
     scn["cfg"] = small_cfg(rnd, 2)
   cfg = cfg_of(scn)
@@ -440,6 +445,8 @@ def _finish(scn, rnd, tier):
         e[0] = lo["activation"]
       elif isinstance(e, list) and len(e) == 3:
         e[1], e[2] = lo["bias"], lo["activation"]
+      elif isinstance(e, list) and len(e) == 4:
+        e[1], e[3] = lo["bias"], lo["activation"]
   if scn.get("recurrent_below_kernel"):     # the recurrent limit is the tighter one (documented 3rd entry)
     e = scn["limit"]["SimpleRNN"]
     rk = sorted(set(cfg.get("recurrent_kernel", cfg["kernel"]).values()) | set(cfg["kernel"].values()))
@@ -468,7 +475,7 @@ def make_scenarios(tier, seed):
         if not domain_ok(cand):
           continue
         n = predicted_leaves(cand)
-        lean_cap = 40 if cand.get("lean") else cap
+        lean_cap = cand.get("cap", 40 if cand.get("lean") else cap)
         if cand["mode"] == "exhaustive" and n > lean_cap:
           continue
         scn = cand
@@ -477,28 +484,40 @@ def make_scenarios(tier, seed):
         raise RuntimeError("generator could not place scenario %s inside the domain" % sid)
       scn["sid"] = "%s#%d" % (sid, rep)
       scn["predicted_leaves"] = predicted_leaves(scn)
-      scn["extra_random"] = 6 if tier == "quick" else 64
-      scn["max_pairwise"] = 40 if tier == "quick" else None
+      heavy = scn["model_name"] in COST
+      scn["extra_random"] = (4 if heavy else 6) if tier == "quick" else (24 if heavy else 64)
+      scn["max_pairwise"] = (20 if heavy else 40) if tier == "quick" else (60 if heavy else None)
       out.append(scn)
   return out
 
 
+COST = {"rnn2": 4.0, "lstm": 3.0, "rnn_dense": 2.0}     # relative cost of one leaf (1 ~ 0.55 s on one core)
+
+
 def cases(tier, seed):
   out = []
-  per_shard = 24 if tier == "quick" else 48
+  per_shard = 28.0 if tier == "quick" else 70.0
   for scn in make_scenarios(tier, seed):
-    est = scn["predicted_leaves"] if scn["mode"] == "exhaustive" else (46 if tier == "quick" else 150)
-    k = max(1, min(16, int(math.ceil(est / float(per_shard)))))
+    w = COST.get(scn["model_name"], 1.0)
+    if scn["mode"] == "exhaustive":
+      est = scn["predicted_leaves"]
+    else:
+      est = (scn["max_pairwise"] or 90) + scn["extra_random"]
+    k = max(1, min(16, int(math.ceil(est * w / per_shard))))
     for s in range(k):
-      out.append({"part": "hp", "scn": scn, "shard": s, "nshards": k})
+      out.append({"part": "hp", "scn": scn, "shard": s, "nshards": k, "cost": est * w / k + 4.0})
   n_delta = 8 if tier == "quick" else 32
   for j in range(n_delta):
-    out.append({"part": "delta", "chunk": j, "nchunks": n_delta})
-  # longest first, interleaved over the workers
-  out.sort(key=lambda c: -(c["scn"]["predicted_leaves"] / float(c["nshards"]) if c["part"] == "hp" else 1))
-  for i, c in enumerate(out):
+    out.append({"part": "delta", "chunk": j, "nchunks": n_delta, "cost": 1.0})
+  # longest first, dealt to the 16 workers in snake order (worker = position % 16)
+  out.sort(key=lambda c: -c["cost"])
+  dealt = []
+  for r in range(0, len(out), 16):
+    chunk = out[r:r + 16]
+    dealt.extend(chunk if (r // 16) % 2 == 0 else chunk[::-1])
+  for i, c in enumerate(dealt):
     c["idx"], c["seed"] = i, seed
-  return out
+  return dealt
 
 
 # ============================================================================= TF side
@@ -913,6 +932,8 @@ def run_hp(case, ctx):
   import numpy as np
   import tensorflow as tf
   from qkeras.autoqkeras.autoqkeras_internal import AutoQKHyperModel
+  import time
+  t_start = time.time()
   scn = case["scn"]
   shard, nshards = case["shard"], case["nshards"]
   P = plan(scn)
@@ -1065,6 +1086,8 @@ def run_hp(case, ctx):
   if _js(ref.get_config()) != ref_cfg_before:
     ctx.observe("reference_model_configuration_changed_by_the_hyper_model", {"sid": scn["sid"]})
 
+  ctx.seen("hp.case_seconds", "w%02d %s shard %d/%d: %d leaves, %.0f s" % (
+      ctx.widx, scn["sid"], shard, nshards, done, time.time() - t_start))
   if shard == 0:
     ctx.count("hp.scenarios")
     ctx.count("hp.scenarios_exhaustive" if (exhaustive and complete) else "hp.scenarios_sampled_or_cut")
